@@ -9,6 +9,7 @@ import (
 	"os"
 	"os/exec"
 	"path/filepath"
+	"runtime"
 	"strings"
 	"sync"
 	"syscall"
@@ -113,6 +114,7 @@ func fatalClass(stderr string) string {
 }
 
 func supervise(fl lib.Flags) {
+	runtime.LockOSThread() // Pdeathsig is tied to the thread that starts the child
 	work := fl.Work
 	if work == "" {
 		work = os.TempDir()
